@@ -312,6 +312,9 @@ fn main() {
     let mut seen = 0u64;
     // optional trace of the benign-payload run (bit digests), compared between CPU-feature builds by TLC
     let mut trace = std::env::var("HX_TRACE").ok().map(|p| std::io::BufWriter::new(std::fs::File::create(p).unwrap()));
+    // optional trace of EVERY run: one event per (program, payload, step) with a digest of everything observable after the step;
+    // spec/Trace_C08.tla accepts it iff the digest does not depend on the payload
+    let mut ptrace = std::env::var("HX_PTRACE").ok().map(|p| std::io::BufWriter::new(std::fs::File::create(p).unwrap()));
     read_cases(&args[1], "CASE", |c| {
         if c["fam"] != "hid" { return; }
         seen += 1;
@@ -339,6 +342,15 @@ fn main() {
                 (obs, txts)
             });
             rep.evals += 1;
+            if let (Some(t), Ok(o)) = (ptrace.as_mut(), &r) {
+                use std::io::Write;
+                for (k, (ws, tx)) in o.0.iter().zip(&o.1).enumerate() {
+                    let mut h: u64 = 0xcbf2_9ce4_8422_2325;
+                    for w in ws { h ^= *w; h = h.wrapping_mul(0x1000_0000_01b3); }
+                    for b in tx.bytes() { h ^= b as u64; h = h.wrapping_mul(0x1000_0000_01b3); }
+                    writeln!(t, "{{\"c\":{},\"p\":{},\"k\":{},\"h\":\"{:016x}\"}}", n, p, k, h).unwrap();
+                }
+            }
             match (r, &reference) {
                 (Err(pn), _) => {
                     rep.mismatch(json!({"prop": "C08", "ty": "Vec3A/Mat3A/Affine3A/BVec3A", "op": steps.last().unwrap()["op"], "payload": format!("{:#x}", PAYLOADS[p]),
